@@ -58,6 +58,14 @@ pub fn pool() -> Vec<MV> {
         s("null"),
         s("10"),
         s("9"),
+        // the same key set in another order with one value different (under each key in turn)
+        r(vec![("a", num(1.0)), ("b", num(2.0))]),
+        r(vec![("b", num(2.0)), ("a", num(9.0))]),
+        r(vec![("b", num(9.0)), ("a", num(1.0))]),
+        r(vec![("a", num(1.0)), ("b", num(2.0)), ("c", num(3.0))]),
+        r(vec![("c", num(3.0)), ("b", num(2.0)), ("a", num(7.0))]),
+        r(vec![("c", num(7.0)), ("a", num(1.0)), ("b", num(2.0))]),
+        r(vec![("b", num(7.0)), ("c", num(3.0)), ("a", num(1.0))]),
         // records whose key sets differ while the values under the unmatched keys are null
         r(vec![("a", MV::Null)]),
         r(vec![("b", MV::Null)]),
@@ -180,6 +188,31 @@ pub fn check_pair(a: &MV, b: &MV, ctx: &mut Ctx) -> Outcome {
     sess.bind("b", b);
     let rel = relations(&sess);
     let tn = tname(a, b);
+    // a whole-number left operand written as a literal directly against the dot operator
+    // (`1.==b`): optional spaces do not change the operator
+    if let MV::Num(crate::model::F(x)) = a
+        && x.fract() == 0.0
+        && *x >= 0.0
+        && *x < 1e15
+        && !x.is_sign_negative()
+    {
+        for (i, src) in RELS.iter().enumerate().take(6) {
+            let compact = src.replacen("a ", &format!("{}", *x as u64), 1).replacen(" b", "b", 1);
+            let got = match sess.obs(&compact) {
+                Ok(MV::Bool(v)) => Ok(v),
+                Ok(other) => Err(format!("non-boolean result {:?}", other)),
+                Err(e) => Err(e),
+            };
+            let same = match (&got, &rel[i]) {
+                (Ok(p), Ok(q)) => p == q,
+                (Err(_), Err(_)) => true,
+                _ => false,
+            };
+            if !same {
+                fail!(format!("compact-literal:{}", tn), "`{}` gave {:?} but `{}` gave {:?} (b = {})", compact, got, src, rel[i], b.to_source(false));
+            }
+        }
+    }
     let meq = a.model_eq(b);
     let mcmp = a.model_cmp(b);
     ctx.label(match (meq, mcmp) {
